@@ -1562,6 +1562,185 @@ def run_earlier_results(ctx, deep, only=None):
             if obj is not None:
                 kept.append((i, slabel, obj, snap(obj)))
 
+
+# =================================================================================================
+# module-level public functions: what they return must not be shared state
+# =================================================================================================
+
+MODULE_SKIP = ('scippneutron.mantid', 'scippneutron.instrument_view', 'scippneutron.data', 'scippneutron.logging',
+               'scippneutron._html_repr', 'scippneutron.conftest')
+# arguments by parameter name for functions that need a few simple ones (each combination is tried)
+SIMPLE_ARGS = {
+    'start': ['tof'], 'origin': ['tof'], 'target': ['dspacing', 'energy_transfer'], 'scatter': [True, False],
+    'energy_mode': ['elastic', 'direct_inelastic'], 'degree': [2], 'isotope': ['V', 'H'], 'prefix': ['p_'],
+}
+
+
+def module_functions():
+    """[(qualified name, [thunk ...])] — every public callable of every public module of the package whose signature can
+    be satisfied with no arguments or with the small table `SIMPLE_ARGS` (found by introspection)"""
+    import importlib
+    import inspect
+    import itertools as it
+    import pkgutil
+
+    import scippneutron
+
+    out = {}
+    mods = ['scippneutron']
+    for m in pkgutil.walk_packages(scippneutron.__path__, 'scippneutron.'):
+        if m.name.startswith(MODULE_SKIP) or any(part.startswith('_') for part in m.name.split('.')[1:]):
+            continue
+        mods.append(m.name)
+    for mn in mods:
+        try:
+            mod = importlib.import_module(mn)
+        except Exception:  # noqa: BLE001
+            continue
+        names = getattr(mod, '__all__', None) or [n for n in vars(mod) if not n.startswith('_')]
+        for n in names:
+            f = getattr(mod, n, None)
+            if not callable(f) or not getattr(f, '__module__', '').startswith('scippneutron') or getattr(f, '__module__', '').startswith(MODULE_SKIP):
+                continue
+            qual = f'{f.__module__}.{getattr(f, "__qualname__", n)}'
+            if qual in out:
+                continue
+            cands = [f]
+            if inspect.isclass(f):      # also its public alternative constructors (for_isotope, from_source_pulse need arguments …)
+                cands += [getattr(f, a) for a in dir(f) if not a.startswith('_') and isinstance(inspect.getattr_static(f, a), classmethod | staticmethod)
+                          and (getattr(getattr(inspect.getattr_static(f, a), '__func__', None), '__module__', '') or '').startswith('scippneutron')]
+            for g in cands:
+                gq = qual if g is f else f'{qual}.{g.__name__}'
+                try:
+                    sig = inspect.signature(g)
+                except (TypeError, ValueError):
+                    continue
+                req = [p for p in sig.parameters.values() if p.default is inspect.Parameter.empty
+                       and p.kind in (p.POSITIONAL_ONLY, p.POSITIONAL_OR_KEYWORD, p.KEYWORD_ONLY)]
+                if any(p.name not in SIMPLE_ARGS for p in req):
+                    continue
+                combos = list(it.product(*[SIMPLE_ARGS[p.name] for p in req])) if req else [()]
+                thunks = []
+                for combo in combos[:4]:
+                    kw = {p.name: v for p, v in zip(req, combo)}
+                    thunks.append((','.join(f'{k}={v}' for k, v in kw.items()), (lambda g=g, kw=kw: g(**kw))))
+                out[gq] = thunks
+    return sorted(out.items())
+
+
+def dependent_computations():
+    """computations in other modules that consume what the module-level functions hand out"""
+    import numpy as np
+    import scipp as sc
+    from scippneutron.absorption import compute_transmission_map
+    from scippneutron.absorption.cylinder import Cylinder
+    from scippneutron.absorption.material import Material
+    from scippneutron.atoms import ScatteringParams
+
+    mat = Material(scattering_params=ScatteringParams.for_isotope('V'), effective_sample_number_density=sc.scalar(0.07, unit='1/angstrom**3'))
+    wav = sc.array(dims=['wavelength'], values=[1.0, 2.0, 4.0], unit='angstrom')
+    cyl = Cylinder(symmetry_line=sc.vector([0.0, 1.0, 0.0]), center_of_base=sc.vector([0.0, -5.0, 0.0], unit='mm'),
+                   radius=sc.scalar(2.0, unit='mm'), height=sc.scalar(10.0, unit='mm'))
+    det = sc.vectors(dims=['detector'], values=np.array([[1.0, 0.0, 1.0], [0.0, 0.5, 1.0]]), unit='m')
+    from scippneutron import convert
+    da = make_beamline(False, ('us', 'float64'), 'm')
+    return {
+        'Material.attenuation_coefficient': mat.attenuation_coefficient(wav),
+        'compute_transmission_map': compute_transmission_map(cyl, mat, beam_direction=sc.vector([0.0, 0.0, 1.0]), wavelength=wav,
+                                                              detector_position=det, quadrature_kind='cheap'),
+        'convert(tof->dspacing)': convert(da, origin='tof', target='dspacing', scatter=True).coords['dspacing'],
+        'convert(tof->energy)': convert(da, origin='tof', target='energy', scatter=True).coords['energy'],
+    }
+
+
+MODULE_PRISTINE_SCRIPT = r"""
+import sys, json
+sys.path.insert(0, sys.argv[1]); sys.path.insert(0, sys.argv[2])
+import warnings; warnings.simplefilter('ignore')
+from harness.props import c09
+out = {}
+for qual, thunks in c09.module_functions():
+    for label, th in thunks:
+        try:
+            out[qual + '(' + label + ')'] = c09._digest(th())
+        except Exception as e:
+            out[qual + '(' + label + ')'] = 'raised:' + type(e).__name__
+for k, v in c09.dependent_computations().items():
+    out['dep:' + k] = c09._digest(v)
+json.dump(out, sys.stdout)
+"""
+
+
+def run_module_functions(ctx, deep, only=None):
+    """call, mutate what was returned in every way its type allows (also one level down), call again: the second result
+    and the dependent computations must be what a pristine process gives"""
+    import warnings
+
+    warnings.simplefilter('ignore')
+    verif = os.path.dirname(os.path.dirname(os.path.dirname(os.path.abspath(__file__))))
+    p = subprocess.run([sys.executable, '-c', MODULE_PRISTINE_SCRIPT, os.path.join(ctx.repo, 'src'), verif],
+                       capture_output=True, text=True, timeout=900, env=dict(os.environ, PYTHONDONTWRITEBYTECODE='1'))
+    if p.returncode != 0:
+        raise RuntimeError('pristine subprocess failed: ' + p.stderr[-600:])
+    ref = json.loads(p.stdout[p.stdout.index('{'):])
+    funcs = module_functions()
+    ctx.note(f'module-level functions found by introspection and callable with no / simple arguments: {len(funcs)}: ' + ', '.join(q for q, _ in funcs))
+    def deps_now():
+        try:
+            return {dk: _digest(dv) for dk, dv in dependent_computations().items()}
+        except Exception as e:  # noqa: BLE001
+            return {dk[4:]: 'raised:' + type(e).__name__ for dk in ref if dk.startswith('dep:')}
+
+    for qual, thunks in funcs:
+        if only is not None and qual != only:
+            continue
+        short = qual.split('scippneutron.', 1)[-1]
+        # state already damaged by an earlier (reported) function: do not blame this one for the dependents
+        deps_clean = all(v == ref['dep:' + k] for k, v in deps_now().items())
+        if not deps_clean:
+            ctx.count('module-function:dependents-already-differ')
+        for label, th in thunks:
+            key = f'{qual}({label})'
+            try:
+                first = th()
+            except Exception:  # noqa: BLE001
+                ctx.count('module-function:raises')
+                continue
+            targets = [('', first)] + _elements(first)
+            nmut = 0
+            for sub, tv in targets:
+                for mlabel, _ in mutations_of(tv):
+                    try:
+                        r = th()
+                        target = dict([('', r)] + _elements(r))[sub]
+                        dict(mutations_of(target))[mlabel](target)
+                    except Exception:  # noqa: BLE001
+                        ctx.count('module-function:mutation-not-applicable')
+                        continue
+                    nmut += 1
+                    ctx.case(('module-function', key, sub, mlabel), True,
+                             sample={'op': 'module-function', 'function': key, 'mutated': sub or 'result', 'mutation': mlabel} if nmut == 1 else None)
+                    ctx.count('module-function:mutations')
+                    try:
+                        again = _digest(th())
+                    except Exception as e:  # noqa: BLE001
+                        again = 'raised:' + type(e).__name__
+                    bad = []
+                    if again != ref.get(key):
+                        bad.append('the function itself')
+                    if deps_clean:
+                        for dk, dv in deps_now().items():
+                            if dv != ref['dep:' + dk]:
+                                bad.append(dk)
+                    if bad:
+                        report(ctx, f'C09:history-dependent:{short}',
+                               f'{key}: after {mlabel} on the returned object{sub}, {bad} differ(s) from a pristine process',
+                               {'kind': 'module-function', 'function': qual, 'call': label, 'element': sub, 'mutation': mlabel, 'changed': bad})
+            if nmut == 0:
+                ctx.count('module-function:immutable-result')
+            else:
+                ctx.count('module-function:checked')
+
 # =================================================================================================
 # translated IR: Lean analysis vs Python mirror; concrete runs vs analysis
 # =================================================================================================
@@ -1577,6 +1756,10 @@ def correspond_ir(ctx):
     ctx.note(f'global-state, {len(gs)} functions touch module-level mutable objects or an lru_cache: ' + '; '.join(
         f'{fi.file}:{fi.qual} reads {[g[1] for g in fi.globals]} writes {[g[1] for g in sorted(fi.global_writes)]}'
         + (' [lru_cache]' if fi.cached else '') for fi in gs))
+    rms = [fi for fi in done if fi.public and not fi.ret_container and any(j >= fi.nreal for j in (fi.ret_alias or []))]
+    ctx.note(f'public functions whose return value may be an object of module state, {len(rms)}: ' + ', '.join(f'{fi.file}:{fi.qual}' for fi in rms))
+    for fi in rms:
+        ctx.disagree({'op': 'ir', 'function': f'{fi.file}:{fi.qual}'}, 'returns module state', [], 'translated public function returns an alias of module-level state')
     ctx.count('ir:global-state-functions', len(gs))
     ctx.count('ir:global-state-writers', sum(1 for fi in gs if fi.global_writes))
     for fi in gs:
@@ -1637,6 +1820,7 @@ def oracle(ctx, deep):
     run_compute_histories(ctx, deep)
     run_handed_out(ctx, deep)
     run_earlier_results(ctx, deep)
+    run_module_functions(ctx, deep)
 
 
 def replay(ctx, payload):
@@ -1653,6 +1837,8 @@ def replay(ctx, payload):
                 break
         else:
             print('configuration not found in the call table')
+    elif w.get('kind') == 'module-function':
+        run_module_functions(ctx, True, only=w['function'])
     elif w.get('kind') == 'handed-out':
         run_handed_out(ctx, True, only=w['attribute'])
     elif w.get('kind') == 'earlier-result':
